@@ -249,6 +249,7 @@ class Env:
         self._cs_by_task = {}
         self.fault_counts: dict[str, int] = {}
         self.loop = None
+        self.res_enabled = bool(self.cfg.get("result_classifier"))
 
     # -- trace ----------------------------------------------------------
     def ev(self, _name: str, /, **kw) -> dict:
@@ -340,6 +341,8 @@ class Env:
     def _op_post(self, cs: CallState, k: int, step: dict):
         kind = step["kind"]
         lab = f"c{cs.cid}a{k}"
+        if kind == "res" and not self.res_enabled:
+            kind = "ok"  # without a result classifier every returned object is a success
         if kind == "ok":
             v = Val("V" + lab)
             cs.objects[v.label] = v
